@@ -30,9 +30,12 @@ pub fn install_panic_hook() {
             "<non-string panic payload>".to_string()
         };
         let loc = info.location().map(|l| format!("{}:{}", l.file(), l.line())).unwrap_or_default();
-        if msg.starts_with("unsafe precondition") || msg.contains("cannot unwind") {
+        if msg.starts_with("unsafe precondition") || msg.contains("cannot unwind") || msg.contains("during cleanup") || std::env::var_os("PQV_DEBUG_PANICS").is_some() {
             // a non-unwinding panic (std's unsafe-precondition checks) aborts the process: say why
             eprintln!("{} @ {}", msg, loc);
+            if std::env::var_os("PQV_DEBUG_PANICS").map_or(false, |v| v == "bt") {
+                eprintln!("{}", std::backtrace::Backtrace::force_capture());
+            }
         }
         LAST_PANIC.with(|p| *p.borrow_mut() = (msg, loc));
     }));
